@@ -56,8 +56,14 @@ func cycleTag(args string) (func(io.Writer, render.Context) error, error) {
 		}
 		// The next few lines could panic if the user spoofs us by creating their own loop object.
 		// “C++ protects against accident, not against fraud.” – Bjarne Stroustrup
-		loopRec := loopVar.(map[string]any)
-		cycleMap := loopRec[".cycles"].(map[string]int)
+		loopRec, ok := loopVar.(map[string]any)
+		if !ok {
+			return ctx.Errorf("cycle must be within a forloop")
+		}
+		cycleMap, ok := loopRec[".cycles"].(map[string]int)
+		if !ok {
+			return ctx.Errorf("cycle must be within a forloop")
+		}
 		group, values := cycle.Group, cycle.Values
 		n := cycleMap[group]
 		verifhook.Yield(verifhook.SiteCycle)
